@@ -83,6 +83,10 @@ func main() {
 		cmdCheck(os.Args[2:])
 	case "replay":
 		cmdReplay(os.Args[2:])
+	case "selftest":
+		cmdSelftest(os.Args[2:])
+	case "testrun":
+		cmdTestRun(os.Args[2:])
 	default:
 		fmt.Fprintln(os.Stderr, "unknown command", os.Args[1])
 		os.Exit(2)
